@@ -20,11 +20,13 @@ def k_of(name):
 class Hook:
     """Recording hook (deep-copyable: the shared log travels with the Sut)."""
 
-    def __init__(self, name, log, inner=None, add=None):
-        self.name, self.log, self.inner, self.add = name, log, inner, add
+    def __init__(self, name, log, inner=None, add=None, fresh=False):
+        self.name, self.log, self.inner, self.add, self.fresh = name, log, inner, add, fresh
 
     def __call__(self, origin, target, params, state):
         before = {k: v for k, v in params.items()}
+        if self.fresh:
+            params = type(params)(params)      # a hook may return a new mapping instead of mutating its argument
         if self.inner is not None:
             params = self.inner(origin, target, params, state)
         if self.add:
@@ -44,7 +46,7 @@ class C20System(BuilderSystem):
         st.hooks = {
             "rec": Hook("rec", st.log),
             "addF": Hook("addF", st.log, add={"F": 1500}),
-            "addQ": Hook("addQ", st.log, add={"Q": 7}),
+            "addQ": Hook("addQ", st.log, add={"Q": 7}, fresh=True),
             "ext1": Hook("ext1", st.log, inner=extrusion_hook(*GEOM["ext1"])),
             "ext2": Hook("ext2", st.log, inner=extrusion_hook(*GEOM["ext2"])),
         }
@@ -153,6 +155,12 @@ class C20System(BuilderSystem):
             if names != st.registered:
                 problems.append(("hook-calls-per-move", f"{op}: line {block!r}: hooks called {names}, registered {st.registered}"))
                 break
+            # each hook works on what the previous one returned
+            for a, b in zip(calls, calls[1:]):
+                got = {k.upper(): v for k, v in b[3].items() if v is not None}
+                want = {k.upper(): v for k, v in a[4].items() if v is not None}
+                if got != want:
+                    problems.append(("hook-chain-broken", f"{op}: line {block!r}: hook {b[0]} received {got}, but the previous hook {a[0]} returned {want}"))
             for c in calls:
                 o, t = c[1], c[2]
                 bo = [before[a] for a in ("X", "Y", "Z")]
